@@ -666,6 +666,8 @@ class Exec:
         """String-theory facts the solver is slow to find: a concatenation contains each of its parts,
         and all_in distributes over it.  Theorems of the theory, added as hints."""
         parts = [p for p in parts]
+        for hook in getattr(self.contracts, "concat_hooks", []):
+            hook(self, st, z, parts)
         if len(parts) > 1:
             for q in parts:
                 if not z3.is_string_value(q):
@@ -1053,10 +1055,10 @@ class Exec:
         if isinstance(op, ast.Mult) and ha == "str" and hb in ("int", "bool"):
             # " " * n : a string of n copies (only single-character strings are used in d42)
             za, zb = self.term(a, st), self.term(b, st)
-            r = M.fresh("rep", M.S)
             n = M.int_of(zb)
+            r = M.srep(M.sval(za), n)
             st.assume(z3.Length(r) == z3.If(n > 0, n, 0) * z3.Length(M.sval(za)))
-            self.used_assumptions.add("str * int: only the length of the result is modelled")
+            self.used_assumptions.add("str * int: srep(s, n), of which only the length is modelled")
             return [(st, T(M.StrV(r), "str"))]
         if isinstance(op, ast.Sub) and ha in ("set", "frozenset") and hb in ("set", "frozenset"):
             za, zb = self.term(a, st), self.term(b, st)
@@ -1282,6 +1284,15 @@ class Exec:
             return out
         if h == "dict":
             out = []
+            if isinstance(v, T) and "C07" in getattr(self, "current_props", ()):
+                # C07 (frame): reading a missing key of a dict that came from outside may run a subclass's __missing__
+                # (collections.defaultdict inserts the key): a read is side-effect free only for a present key or an
+                # exact dict
+                self.frame_ctr = getattr(self, "frame_ctr", 0) + 1
+                self.oblige(st, f"{self.fname.split(':')[-1]}:frame[dict-read]#{self.frame_ctr}", "ensures",
+                            z3.Or(M.has(z, zi), M.rcls(z) == self.ct.id("dict")), ("C07",),
+                            text="subscript read of a dict passed in: the key is present or the dict is an exact dict "
+                                 "(a defaultdict would be mutated by the read)")
             for s, inn in self.branch(st, M.has(z, zi), "KeyError", "dict subscript"):
                 if inn:
                     out.append((s, T(M.dget(z, zi), None)))
